@@ -113,3 +113,85 @@ def check_translation(ctx, rule='A21'):
                'in the design vector is a different index as soon as a forced choice precedes it)',
                f'key `{short(k)}`' + ('' if ok else ' does not come from _sel_choice_idx_map'))
     return len(keys)
+
+
+# ---------------------------------------------------------------------- A21i: position maps keyed by objects
+IDENTITY_TABLE = {
+    'adsg_core.graph.adsg_nodes:DSGNode':
+        '__hash__ returns the per-object `_id` drawn from a global counter and __eq__ compares that id: distinct node '
+        'objects never compare equal',
+}
+
+
+def _eq_definers(prog, c):
+    """Classes in the MRO of c (repo classes only) that define __eq__/__hash__, or are dataclasses with
+    generated equality."""
+    out = []
+    for k in prog.mro(c):
+        if '__eq__' in k.methods or '__hash__' in k.methods:
+            out.append((k, 'defines ' + '/'.join(m for m in ('__eq__', '__hash__') if m in k.methods)))
+            continue
+        for d in getattr(k.node, 'decorator_list', []):
+            nm = norm(d.func) if isinstance(d, ast.Call) else norm(d)
+            if nm.split('.')[-1] == 'dataclass':
+                eq_false = isinstance(d, ast.Call) and any(
+                    kw.arg == 'eq' and isinstance(kw.value, ast.Constant) and kw.value.value is False
+                    for kw in d.keywords)
+                if not eq_false:
+                    out.append((k, 'is a dataclass with generated __eq__'))
+    return out
+
+
+def check_position_map_keys(ctx, fns, rule='A21i', required=()):
+    """A position map `{k: i for i, k in enumerate(xs)}` keyed by objects sends every member of xs to its own
+    position only when distinct members never compare equal: the key class hashes by identity (defines no
+    __eq__/__hash__, is no eq-dataclass) or is tabled as injective by construction."""
+    prog, types = ctx.prog, ctx.types
+    n = 0
+    seen_required = set()
+    for fn in fns:
+        key = fn.key
+        for sub in ast.walk(fn.node):
+            if not (isinstance(sub, ast.DictComp) and len(sub.generators) == 1):
+                continue
+            g = sub.generators[0]
+            if not (isinstance(g.iter, ast.Call) and norm(g.iter.func) == 'enumerate' and g.iter.args and
+                    isinstance(g.target, ast.Tuple) and len(g.target.elts) == 2 and
+                    all(isinstance(e, ast.Name) for e in g.target.elts)):
+                continue
+            counter, elem = g.target.elts[0].id, g.target.elts[1].id
+            if not (isinstance(sub.key, ast.Name) and sub.key.id == elem and
+                    isinstance(sub.value, ast.Name) and sub.value.id == counter):
+                continue
+            classes = types.classes(types.elem(types.of(g.iter.args[0], fn)))
+            if not classes:
+                if key in required:
+                    raise AnalysisError(f'{key}: element class of `{norm(g.iter.args[0])}` could not be resolved')
+                continue
+            seen_required.add(key)
+            for c in classes:
+                fam = [c] + prog.subclasses(c)
+                definers = []
+                for k in fam:
+                    for d, why in _eq_definers(prog, k):
+                        if (d, why) not in definers:
+                            definers.append((d, why))
+                bad = [(d, why) for d, why in definers if d.key not in IDENTITY_TABLE]
+                for d, why in definers:
+                    if d.key in IDENTITY_TABLE:
+                        ctx.used_exception(rule, d.key, IDENTITY_TABLE[d.key])
+                n += 1
+                ctx.touch(fn)
+                ctx.ob(rule, fkey(fn, rule, f'{c.name}-keys-distinct'), not bad, f'{fn.module.relpath}:{sub.lineno}',
+                       f'`{short(sub, 70)}` maps every {c.name} of the list to its own position: distinct {c.name} '
+                       f'objects never compare equal',
+                       f'{c.name} hashes by identity' if not definers else
+                       ('; '.join(f'{d.name} {why} (tabled: injective by construction)' for d, why in definers)
+                        if not bad else
+                        '; '.join(f'{d.module.relpath}:{d.node.lineno} {d.name} {why}' for d, why in bad) +
+                        ': two list members that compare equal collapse into one key and the first loses its '
+                        'position'))
+    for key in required:
+        if key not in seen_required:
+            raise AnalysisError(f'{key}: position map `{{k: i for i, k in enumerate(..)}}` not found')
+    return n
